@@ -83,7 +83,8 @@ def check(ctx):
     # the update function receives only state, record buffer, dt and the field values
     fr = repo.func(RUNNER, "Runner._run_stage")
     calls = [n for n in own_nodes(fr.node) if isinstance(n, ast.Call) and norm(n.func) == "self.function"]
-    ok = len(calls) == 1 and [norm(a) for a in calls[0].args] == ["self.state", "self.running_state", "dt"] and \
+    from ..dataflow import expanded_text
+    ok = len(calls) == 1 and [expanded_text(fr.node, a) for a in calls[0].args] == ["self.state", "self.running_state", "self.dt"] and \
         [norm(k.value) for k in calls[0].keywords] == ["dict(zip(self.names, self.values))"]
     ctx.ob("R11.1", "the update is called with (state, record buffer, dt, **values) and nothing else", ok,
            detail=[norm(c)[:160] for c in calls], where=fr.fq, construct="self.function(...) arguments", loc=loc(fr, calls[0]) if calls else "",
@@ -111,12 +112,30 @@ def check(ctx):
 
 def observers(ctx):
     repo = ctx.repo
-    allowed_roots = {"group", "tmp_grp", "running_grp", "self.save_number", "value", "self.tmp_file", "self.output_file",
-                     "self.time_step_group"}
+    H5_ROOTS = ("self.tmp_file", "self.output_file", "self.time_step_group", "self.mesh_group")
     bad = []
     writers = c05.frame_writer_funcs(repo)
     fsv = writers[0]
     for fw in writers:
+        # names that denote HDF5 objects or host copies: parameters annotated h5py.Group, names bound to expressions rooted
+        # at the handler's files/groups or to create_group(...), and names bound to _get(...)
+        h5names = {a.arg for a in fw.node.args.args if a.annotation is not None and "h5py" in norm(a.annotation)}
+        changed = True
+        while changed:
+            changed = False
+            for n in own_nodes(fw.node):
+                if isinstance(n, ast.Assign) and len(n.targets) == 1 and isinstance(n.targets[0], ast.Name):
+                    v = n.value
+                    root = v
+                    while isinstance(root, (ast.Subscript, ast.Attribute, ast.Call)):
+                        if norm(root) in H5_ROOTS:
+                            break
+                        root = root.func if isinstance(root, ast.Call) else root.value
+                    is_h5 = norm(root) in H5_ROOTS or (isinstance(root, ast.Name) and root.id in h5names) or \
+                        (isinstance(v, ast.Call) and norm(v.func) == "_get")
+                    if is_h5 and n.targets[0].id not in h5names:
+                        h5names.add(n.targets[0].id)
+                        changed = True
         for n in own_nodes(fw.node):
             tg = []
             if isinstance(n, ast.Assign):
@@ -126,12 +145,15 @@ def observers(ctx):
             elif isinstance(n, ast.Delete):
                 tg = n.targets
             for t in tg:
-                root = t
-                while isinstance(root, (ast.Subscript, ast.Attribute)) and not norm(root) in allowed_roots:
-                    root = root.value
                 if isinstance(t, ast.Name):
                     continue
-                if norm(root) not in allowed_roots:
+                root = t
+                while isinstance(root, (ast.Subscript, ast.Attribute)):
+                    if norm(root) in H5_ROOTS or norm(root) == "self.save_number":
+                        break
+                    root = root.value
+                ok_root = norm(root) in H5_ROOTS or norm(root) == "self.save_number" or (isinstance(root, ast.Name) and root.id in h5names)
+                if not ok_root:
                     bad.append(f"{fw.qual} L{n.lineno}: {norm(t)}")
     ctx.ob("R11.2", f"the frame writer ({', '.join(w.qual for w in writers)}) stores only into HDF5 groups and its own counter", not bad,
            detail=bad, where=fsv.fq, construct="write effects of the frame writer", loc=loc(fsv, fsv.node),
